@@ -329,8 +329,25 @@ func (c *ctrl) fire() {
 	c.Unlock()
 }
 
-// wait for the goroutine StartCommitProcessPhase spawns
+// wait for the goroutine StartCommitProcessPhase spawns (it hands the certificate to the controller: a commit or a gate
+// refusal is recorded); only when the replica took the commit path, and for as long as it takes on a loaded machine
 func settle() { time.Sleep(15 * time.Millisecond) }
+
+func (w *world) settleCommit(id int, gateLogBefore int) {
+	if w.nodes[id].b.Phase != bft.CommitProcess {
+		return // round interrupt: nothing was handed over
+	}
+	for i := 0; i < 2500; i++ {
+		w.mu.Lock()
+		_, done := w.commits[id]
+		grew := len(w.gateLog) > gateLogBefore
+		w.mu.Unlock()
+		if done || grew {
+			return
+		}
+		time.Sleep(2 * time.Millisecond)
+	}
+}
 
 type stepResult struct {
 	Note string
@@ -506,9 +523,12 @@ func (w *world) exec(a Action) (note string, err error) {
 			return "", e
 		}
 		addNote(w.deliver(n, msg))
+		w.mu.Lock()
+		glb := len(w.gateLog)
+		w.mu.Unlock()
 		c.fire()
 		if a.A == "CommitProcess" {
-			settle()
+			w.settleCommit(n, glb)
 			c.cpDone = b.Phase == bft.CommitProcess
 		}
 	case "AdoptLock":
